@@ -69,6 +69,9 @@ fn main() {
     harness::sched::install_quiet_panic_hook();
     let _ = harness::cond::tie_policy();
     let code = match id.as_str() {
+        "C10" => run(&props::sampling::Sampling, tier, replay, hashes),
+        "C09" => run(&props::early::EarlyStop, tier, replay, hashes),
+        "C08" => run(&props::refine::Refinement, tier, replay, hashes),
         "C02" => run(&props::regret::BoundDominates, tier, replay, hashes),
         "C03" => run(&props::regret::CfrRate, tier, replay, hashes),
         "C04" => run(&props::regret::SampledConverge, tier, replay, hashes),
